@@ -216,6 +216,31 @@ def check(sd):
             break
     if fails:
         return fails[:3]
+    # ---- a template with an EMPTY nested compartment merged into several composites; a later merge through that key into
+    #      one of them must not show up in the template or in the siblings
+    try:
+        template = Composite({'processes': {'feed': Grow(), 'agents': {}}, 'topology': {'feed': {'pool': ('pool',)}, 'agents': {}},
+                              'state': {'pool': {'m': 1}, 'agents': {}}})
+        snap_t = struct(template)
+        where = tuple(rng.sample(['east', 'west'], rng.choice([0, 1])))
+        colony_a, colony_b = Composite({}), Composite({})
+        colony_a.merge(composite=template, path=where)
+        colony_b.merge(composite=template, path=where)
+        snap_b = struct(colony_b)
+        agent = Cell({'rate': 2}).generate()
+        colony_a.merge(composite=agent, path=where + ('agents', '1'))
+        if struct(template) != snap_t:
+            fails.append('a merge into a composite built from a template changed the template: processes %r -> %r'
+                         % (snap_t['processes'], struct(template)['processes']))
+        if struct(colony_b) != snap_b:
+            fails.append('a merge into one composite changed its sibling built from the same template: %r -> %r'
+                         % (snap_b['processes'], struct(colony_b)['processes']))
+        if 'grow' not in tget(colony_a['processes'], where + ('agents', '1')):
+            fails.append('the merged agent did not arrive at %s' % (where + ('agents', '1'),))
+    except Exception as e:
+        fails.append('template merges raised %s: %s' % (type(e).__name__, str(e)[:160]))
+    if fails:
+        return fails[:3]
     # ---- using a composite does not change it: initial_state(config) / generate_store(config) with an initial-state
     #      override that reaches into the composite's own nested state, then the composite is used again
     try:
